@@ -165,6 +165,13 @@ class RenderBody(Contract):
             if lvl is not None:
                 key = v["KEY"][lvl](st.ghost["__next_run_row__"])
                 I.oblige(st, f"C05.no_heading_for_divider_or_null@L{site}", active(key), "post", site)
+                # C03: the row budget (unit RowMetadata, rendered_heading_rows) counts a heading row for level l at a group start only when
+                # the value of l or of an outer level changes there; a heading rendered for an unchanged level under unchanged outer levels
+                # is a row nobody reserved
+                rr = st.ghost["__next_run_row__"]
+                same_val = lambda a, b: Or(And(val_null(a), val_null(b)), And(Not(val_null(a)), Not(val_null(b)), val_str(a) == val_str(b)))
+                I.oblige(st, f"C03.heading_row_only_for_a_level_at_or_below_a_level_whose_value_changes_at_this_group_start@L{site}",
+                         Or(*[Not(same_val(v["KEY"][l2](rr), v["KEY"][l2](rr - 1))) for l2 in range(lvl + 1)]), "post", site)
                 g[f"Hset{lvl}"] = z3.BoolVal(True)
                 g[f"H{lvl}"] = key
                 g[f"pos{lvl}"] = g["cnt"]
